@@ -124,6 +124,161 @@ class Collector:
         return r
 
 
+def _pool_worker(modname, shard, nshards, tier, seed, start, q, hb, profile_first):
+    import symx
+    sys.setrecursionlimit(10000)
+    try:
+        mod = __import__(modname, fromlist=['x'])
+        cs = mod.cases(tier, seed)
+        mine = cs[shard::nshards]
+        runi = getattr(mod, 'run_indexed', None) or (lambda col, case, k: mod.run_case(col, case))
+        for pos in range(start, len(mine)):
+            hb[2 * shard] = pos
+            hb[2 * shard + 1] = time.time()
+            col = Collector()
+            symx.STATS.__init__()
+            if pos < profile_first:
+                with Functions() as fns:
+                    runi(col, mine[pos], pos)
+                col.functions |= fns.names
+            else:
+                runi(col, mine[pos], pos)
+            q.put(('part', shard, pos, col.result(symx.STATS)))
+        hb[2 * shard] = -1
+        q.put(('done', shard, len(mine), None))
+    except BaseException as e:      # noqa
+        q.put(('error', shard, -1, f'{type(e).__name__}: {e}\n{traceback.format_exc()[-2000:]}'))
+
+
+def run_pool(modname, tier, seed, case_timeout=150, nshards=None, profile_first=3):
+    """Run mod.cases(tier, seed) through mod.run_case in `nshards` worker processes with a hard wall-clock
+    limit per case: a worker stuck in the solver (nlsat can ignore its timeout and interrupts) is killed, the
+    case is recorded as inconclusive and a fresh worker resumes with the next case.  Returns the list of
+    per-case result dicts (as from Collector.result)."""
+    n = nshards or min(16, os.cpu_count() or 1)
+    ctx = mp.get_context('fork')
+    q = ctx.Queue()
+    hb = ctx.Array('d', 2 * n, lock=False)
+    procs = {}
+
+    def start(shard, pos):
+        hb[2 * shard] = pos
+        hb[2 * shard + 1] = time.time()
+        p = ctx.Process(target=_pool_worker, args=(modname, shard, n, tier, seed, pos, q, hb, profile_first))
+        p.daemon = True
+        p.start()
+        procs[shard] = p
+    for i in range(n):
+        start(i, 0)
+    results = []
+    done = set()
+    import queue as _q
+    while len(done) < n:
+        try:
+            kind, shard, pos, payload = q.get(timeout=1.0)
+            if kind == 'part':
+                results.append(payload)
+            elif kind == 'done':
+                done.add(shard)
+            else:
+                results.append({'error': payload, 'shard': shard})
+                done.add(shard)
+            continue
+        except _q.Empty:
+            pass
+        now = time.time()
+        for shard, p in list(procs.items()):
+            if shard in done:
+                continue
+            pos = int(hb[2 * shard])
+            if pos >= 0 and now - hb[2 * shard + 1] > case_timeout:
+                p.kill()
+                p.join()
+                results.append(dict(evaluations=1, nontrivial=[], violations=[], unmodelled=[], samples=[], functions=[], extra={},
+                                    checks=0, checks_passed=0,
+                                    inconclusive=[{'label': f'{modname} shard {shard} case {pos}', 'why': f'hard timeout {case_timeout}s (solver did not return)'}]))
+                start(shard, pos + 1)
+            elif not p.is_alive() and pos >= 0 and q.empty():
+                # died without reporting (e.g. killed by the OOM killer)
+                time.sleep(0.5)
+                if q.empty() and shard not in done:
+                    results.append({'error': f'worker for shard {shard} died at case {pos}', 'shard': shard})
+                    done.add(shard)
+    for p in procs.values():
+        if p.is_alive():
+            p.join(timeout=5)
+    return results
+
+
+def guarded(fn, col, timeout_s, label):
+    """run fn(child_collector) in a forked child with a hard wall-clock limit (z3's nlsat can ignore both
+    its timeout and interrupts); the child's findings are merged into col, a kill is recorded as inconclusive"""
+    import pickle
+    import signal
+    import symx
+    r, w = os.pipe()
+    pid = os.fork()
+    if pid == 0:
+        code = 0
+        try:
+            os.close(r)
+            c = Collector()
+            symx.STATS.__init__()
+            fn(c)
+            data = pickle.dumps((c.result(symx.STATS), None))
+        except BaseException as e:      # noqa
+            data = pickle.dumps((None, f'{type(e).__name__}: {e}\n{traceback.format_exc()[-1500:]}'))
+        try:
+            with os.fdopen(w, 'wb') as f:
+                f.write(data)
+        finally:
+            os._exit(code)
+    os.close(w)
+    import select
+    buf = b''
+    deadline = time.time() + timeout_s
+    f = os.fdopen(r, 'rb', buffering=0)
+    killed = False
+    while True:
+        left = deadline - time.time()
+        if left <= 0:
+            killed = True
+            break
+        rl, _, _ = select.select([f], [], [], min(left, 1.0))
+        if rl:
+            chunk = f.read(1 << 16)
+            if not chunk:
+                break
+            buf += chunk
+    f.close()
+    if killed:
+        try:
+            os.kill(pid, signal.SIGKILL)
+        except ProcessLookupError:
+            pass
+    os.waitpid(pid, 0)
+    if killed or not buf:
+        col.inconclusive.append({'label': label, 'why': f'hard timeout {timeout_s}s' if killed else 'child died'})
+        return False
+    res, err = pickle.loads(buf)
+    if err:
+        raise RuntimeError('guarded child failed: ' + err)
+    col.evaluations += res['evaluations']
+    col.nontrivial.update(res['nontrivial'])
+    col.violations.extend(res['violations'])
+    col.inconclusive.extend(res['inconclusive'])
+    col.unmodelled.extend(res['unmodelled'])
+    col.samples.extend(res['samples'][: max(0, 4 - len(col.samples))])
+    col.checks += res['checks']
+    col.checks_passed += res['checks_passed']
+    st = res.get('stats', {})
+    for k in ('paths', 'queries', 'obligations', 'discharged', 'inconclusive', 'unmodelled'):
+        setattr(symx.STATS, k, getattr(symx.STATS, k) + int(st.get(k, 0)))
+    symx.STATS.solver_s += st.get('solver_time_s', 0)
+    symx.STATS.samples.extend(res.get('smt_samples', [])[: max(0, 3 - len(symx.STATS.samples))])
+    return True
+
+
 def merge(results):
     out = dict(evaluations=0, nontrivial=set(), violations=[], inconclusive=[], unmodelled=[],
                samples=[], functions=set(), errors=[], stats={}, smt_samples=[], extra={},
